@@ -40,7 +40,9 @@ Record stmt := mkStmt {
   sdepth : Z;      (* env.CallDepth of the executing function *)
   spos : Z;        (* source position (payload only) *)
   sbp : bool;      (* statement is a breakpoint: "break" or _ = "break"  (Comp.breakpoint) *)
-  sentry : bool    (* first statement of a freshly entered code list (env.IP = 0): a new exec loop starts *)
+  sentry : bool;   (* first statement of a freshly entered code list (env.IP = 0): a new exec loop starts *)
+  sdefer : bool    (* a `defer` statement: it raises Signals.Sync = SigDefer, which the exec loop handles (installs the
+                      deferred call) at its next test of the signals *)
 }.
 
 (* mode of the exec loop that runs one function activation *)
@@ -69,6 +71,14 @@ Fixpoint pad (k : nat) (fs : list fmode) (m : fmode) : list fmode :=
 Definition poll (n : nat) : bool :=
   (n =? 14)%nat || (n =? 28)%nat || (n =? 42)%nat || (n =? 56)%nat ||
   ((70 <=? n)%nat && ((n - 70) mod 15 =? 0)%nat).
+
+(* the counter of the fast loop after it executed statement s.  A defer statement (SigDefer) in the first phase
+   (5 blocks of 14, run.Interrupt = nil: the statement returns nil and ends the block) brings the loop to the end of
+   its block: the signals are tested at once and the next block starts; in the second phase (blocks of 15,
+   run.Interrupt = spinInterrupt: the rest of the block spins) the loop installs the defer, executes ONE more statement
+   (`// single step`), tests the signals and starts a new block: the counter is set one short of a block end *)
+Definition bump (n : nat) (s : stmt) : nat :=
+  if sdefer s then (if (n <? 70)%nat then (14 * (n / 14 + 1))%nat else 84%nat) else S n.
 
 (* what the loop does when it gets control back, before its next statement:
    SS: `if run.Signals.IsEmpty() { goto again }` (fast loop restarted, counters reset);
@@ -117,8 +127,8 @@ Definition dstep (st : dstate) (i : Z) (s : stmt) (cmds : list cmd) : dstate * l
       if sbp s then
         let '(d, r) := callback s cmds in
         (* sig != SigNone: the statement returns run.Interrupt, the loop reaches `signal:` before the next statement *)
-        (mkD d (outer ++ [if 0 <? d then SS else Fast (S n)]), [(i, true)], r)
-      else (mkD (dd st) (outer ++ [Fast (S n)]), [], cmds)
+        (mkD d (outer ++ [if 0 <? d then SS else Fast (bump n s)]), [(i, true)], r)
+      else (mkD (dd st) (outer ++ [Fast (bump n s)]), [], cmds)
   end.
 
 Fixpoint run (st : dstate) (i : Z) (tr : list stmt) (cmds : list cmd) : list stop :=
@@ -209,8 +219,8 @@ Definition kdstep (st : dstate) (i : Z) (s : stmt) (cmds : list cmd) : dstate * 
   | Fast n =>
       if sbp s then
         let '(d, r, p) := kcallback (dd st) s cmds in
-        (mkD d (outer ++ [if 0 <? d then SS else Fast (S n)]), if p then [(i, true)] else [], r)
-      else (mkD (dd st) (outer ++ [Fast (S n)]), [], cmds)
+        (mkD d (outer ++ [if 0 <? d then SS else Fast (bump n s)]), if p then [(i, true)] else [], r)
+      else (mkD (dd st) (outer ++ [Fast (bump n s)]), [], cmds)
   end.
 
 Fixpoint krun (st : dstate) (i : Z) (tr : list stmt) (cmds : list cmd) : list stop :=
